@@ -124,7 +124,10 @@ func (c *RollingCounter) incBucketValue(v int) {
 
 // Returns the number in the moving window bucket that this slot occupies.
 func (c *RollingCounter) getBucket(t time.Time) int {
-	return int(t.Truncate(c.resolution).Unix() % int64(len(c.values)))
+	// Number the resolution steps consecutively: indexing by Unix seconds maps distinct steps
+	// to the same bucket (or skips buckets) whenever the resolution is not exactly one second.
+	step := t.Truncate(c.resolution).UnixNano() / int64(c.resolution)
+	return int(step % int64(len(c.values)))
 }
 
 // Reset buckets that were not updated.
